@@ -43,7 +43,7 @@ var profiles = map[string]Profile{
 		Faults: map[string]int{"isolate-leader": 3, "stall": 2, "break": 2, "halfwrite": 3, "restart": 2, "crash": 2, "transfer": 3, "snapshot": 3, "selfdemote": 1, "heal": 2}},
 	"member": {MinNodes: 1, MaxNodes: 4, Steps: 16, Clients: 3, MaxIDs: 6, DelayProb: 0.05,
 		Ops:    map[string]int{"update": 6, "read": 1, "barrier": 1},
-		Faults: map[string]int{"member": 10, "isolate-leader": 3, "isolate-any": 2, "transfer": 3, "crash": 2, "restart": 1, "stall": 2, "snapshot": 1, "heal": 2, "tnow": 5, "selfdemote": 2, "selfremove": 1, "shrink": 2, "readdr": 2}},
+		Faults: map[string]int{"member": 10, "isolate-leader": 3, "isolate-any": 2, "transfer": 3, "crash": 2, "restart": 1, "stall": 2, "snapshot": 1, "heal": 2, "tnow": 5, "selfdemote": 2, "selfremove": 1, "shrink": 2, "readdr": 2, "member-at-election": 3}},
 	"snapshot": {MinNodes: 3, MaxNodes: 4, Steps: 14, Clients: 5, MaxIDs: 5, DelayProb: 0.05,
 		Ops:    map[string]int{"update": 10, "read": 1, "dirty": 1},
 		Faults: map[string]int{"snapshot": 8, "slow-snapshot": 4, "isolate-any": 4, "stall": 2, "halfwrite": 4, "restart": 3, "crash": 2, "member": 2, "transfer": 1, "heal": 3}},
@@ -681,6 +681,55 @@ func (e *engineA) fault(act string) {
 		}
 	case "readdr":
 		e.moveNode()
+	case "member-at-election":
+		// a membership request that reaches a leader the moment it is elected,
+		// before it can have committed an entry of its own term (links slow)
+		live := e.cl.liveNodes()
+		if len(live) < 2 {
+			return
+		}
+		for _, a := range live {
+			for _, b := range live {
+				if a != b {
+					e.net.Delay(a.label, b.label, e.hb()/4)
+				}
+			}
+		}
+		var armed int32 = 1
+		e.rc.onNodeEvent = func(dir string, r *ev.Rec) {
+			if r.K == "state" && r.St != nil && r.St.State == "L" && atomic.CompareAndSwapInt32(&armed, 1, 0) {
+				for _, n := range live {
+					if n.dir == dir {
+						go e.cl.changeConfig(n, "request at the moment of election", func(conf *raft.Config) error {
+							for id, nd := range conf.Nodes {
+								if id != n.nid && nd.Action == raft.None {
+									if nd.Voter {
+										return conf.SetAction(id, raft.Demote)
+									}
+									return conf.SetAction(id, raft.Promote)
+								}
+							}
+							return fmt.Errorf("skip")
+						})
+					}
+				}
+			}
+		}
+		if l := e.cl.leader(); l != nil {
+			e.isolate(l, true)
+			e.sleepHB(3, 6)
+			e.isolate(l, false)
+		} else {
+			e.sleepHB(3, 6)
+		}
+		e.rc.onNodeEvent = nil
+		for _, a := range live {
+			for _, b := range live {
+				if a != b {
+					e.net.Delay(a.label, b.label, 0)
+				}
+			}
+		}
 	case "selfdemote":
 		l := e.cl.leader()
 		if l == nil {
@@ -804,6 +853,14 @@ func (e *engineA) memberAction() {
 		default: // illegal request: flip a voting right directly, or drop a node
 			if len(members) == 0 {
 				continue
+			}
+			if e.rng.Intn(4) == 0 && len(members) < e.prof.MaxIDs {
+				// a new node that votes from the start
+				if id := e.newNodeID(&conf); id != 0 {
+					conf.Nodes[id] = raft.Node{ID: id, Addr: e.cl.addrOf(id), Voter: true}
+					desc += fmt.Sprintf("ILLEGAL-add-voter(%d) ", id)
+					continue
+				}
 			}
 			id := members[e.rng.Intn(len(members))]
 			n := conf.Nodes[id]
